@@ -350,6 +350,8 @@ def run_property(prop, tier, seed, only=None):
 
     agg = Stats()
     known_hits = collections.Counter()
+    for old_file in glob.glob(os.path.join(env.OUT_DIR, "replays", pid, "*.json")):
+        os.remove(old_file)  # replays/ holds the violations of the latest run only
     # ---- replay tier: regress/<ID>/*.json ---------------------------------------------------
     regress = sorted(glob.glob(os.path.join(env.VERIF_DIR, "regress", pid, "*.json")))
     n_regress = 0
